@@ -51,12 +51,19 @@ Theorem C27_refuted_length :
 Proof. exact refuted_length. Qed.
 Print Assumptions C27_refuted_length.
 
-(* F26b: unquote reads the hex digits of a stored escape in base ten *)
-Theorem C27_refuted_unquote_decimal :
-  (match literal_value w_10x with Some lv => css_unquote lv | None => None end) = Some [10; 120] /\
+(* F26b is fixed (cf6ac61): unquote now reads the stored escape in base 16 *)
+Example C27_unquote_hex_example :
+  (match literal_value w_10x with Some lv => css_unquote lv | None => None end) = Some (css_decode w_10x) /\
   css_decode w_10x = [16; 120].
-Proof. exact refuted_unquote_decimal. Qed.
-Print Assumptions C27_refuted_unquote_decimal.
+Proof. exact unquote_hex_example. Qed.
+
+(* what is left of the quote/unquote clause: a denoted newline is not escaped again by quote *)
+Theorem C27_refuted_quote_unquote_newline :
+  exists lv u, literal_value w_nl = Some lv /\ css_unquote lv = Some u /\ u = [10] /\
+    css_display (pref_dquotes (css_quote (mkStr u QNone))) = [34; 10; 34] /\
+    token_denotes [34; 10; 34] (css_decode w_nl) = false.
+Proof. exact refuted_quote_unquote_newline. Qed.
+Print Assumptions C27_refuted_quote_unquote_newline.
 
 (* a private-use character is printed as a hex escape without terminator: U+E000 then 1 reads back as U+E0001 *)
 Theorem C27_refuted_private_use :
